@@ -99,6 +99,31 @@ CLAIMED.update({
         "drop and after exit, and a /proc count of fjall worker threads.", note="flock semantics and thread exit are the OS's", ref="6 C17"),
 })
 
+PROOF_NOTE = ("trusted: Coq kernel, extraction (ExtrOcamlBasic), fjm driver, fjv harness, generators; lsm-tree below the Lsm.v contract is "
+              "modelled, not verified; the theorems are about the model, the differential run ties the model to the code on every run")
+CLAIMED["C05"] = dict(cat="proof", tech="Coq proof (tracker invariants, frozen reads under all tree operations, parameter lemma) + differential programs with many live views",
+   text="Coq theorems (props/C05.v, closed): C05_tracker_invariants — for every sequence of open/clone/close/publish/gc/pullup the table counts the live "
+        "holders and the GC watermark stays below every live instant and below the visible seqno; C05_reads_frozen — point reads and scans at instant I "
+        "(through super-version selection) are unchanged by every sequence of memtable appends, rotation, flush, compaction (any filter), clear, ingestion "
+        "registration and version-history maintenance whose new seqnos are >= I and whose watermarks are <= I; C05_fjall_parameters_ok — the seqnos fjall "
+        "draws and the watermark it passes satisfy exactly that for every live view; C05_select_defined — a live view always finds its super-version. Tied to "
+        "the code by programs with up to five live views (snapshots, tx read views, lazily consumed iterators, instant-0 snapshots) re-read after every "
+        "kind of operation, implementation vs extracted model vs oracle. Thread schedules: known finding E4 (see C06).",
+   note=PROOF_NOTE + "; Rust atomics/DashMap assumed sequentially consistent at API-call granularity", ref="6 C05")
+CLAIMED["C08"] = dict(cat="proof", tech="Coq proof (overlay read-your-writes / last-write-wins, commit = final write per key, rollback no-op) + differential in-transaction programs + threaded counters",
+   text="Coq theorems (props/C08.v, closed): C08_read_your_writes for any list of in-transaction writes; C08_commit_complete / C08_commit_sound — the commit batch "
+        "contains exactly each key's final overlay entry; C08_rollback_noop; C08_tx_write_is_overlay_step (bridge to the interpreter). Tied to the code by "
+        "random in-transaction programs on both transactional databases with all endings and by multi-threaded read-modify-write counters on the "
+        "single-writer database.", note=PROOF_NOTE + "; the single-writer mutual-exclusion clause is checked by the threaded counter runs only", ref="6 C08")
+CLAIMED["C07"] = dict(cat="proof", tech="Coq proof (has_conflict characterisation, footprints, validation soundness) + differential SSI histories + brute-force serial-order search",
+   text="Coq theorems (props/C07.v, closed; partial w.r.t. the full property): C07_has_conflict_iff (conflict detection = a written key lies in a recorded read "
+        "footprint of the same keyspace), C07_footprints (what point, full and range/prefix reads record covers what they read), C07_validation_sound (for any "
+        "key/value types: no intervening committed write in the footprint => snapshot state and pre-commit state agree on the footprint, i.e. the transaction's "
+        "reads are those of the serial execution in commit order). Not yet a theorem: that every read method of the Rust API records its footprint (validated "
+        "differentially: each read and each commit verdict vs the extracted model) and the lifting through Db.v. Independently a brute-force checker searches a "
+        "real-time-consistent serial order for the implementation's committed reads.",
+   note=PROOF_NOTE + "; commits and snapshot acquisition are serialised by the oracle mutex (assumed; single-threaded interleavings of whole API calls)", ref="6 C07")
+
 m = {"version": 1, "setup_cmd": "./setup.sh",
      "hooks": {"guard": "cargo feature fjall_verif",
                "enable": "harness/Cargo.toml depends on fjall = { path = \"/repo\", features = [\"fjall_verif\"] }",
